@@ -473,7 +473,9 @@ def t_cli(t):
             env["GV_INJECT"] = _json.dumps(t["inject"])
             cmd = [sys.executable, os.path.join(os.path.dirname(os.path.abspath(__file__)), "cli_inject.py")] + t["args"]
         else:
-            cmd = [sys.executable, os.path.join(impl.REPO, "gasol_asm.py")] + t["args"]
+            cmd = [sys.executable, os.path.join(os.path.dirname(os.path.abspath(__file__)), "cli_launch.py")] + t["args"]
+        pathfile = d + ".gasolpath"
+        env["GV_PATHFILE"] = pathfile
         t0 = time.time()
         try:
             p = subprocess.run(cmd, cwd=d, env=env, capture_output=True, text=True, timeout=t.get("cli_timeout", 240))
@@ -490,6 +492,13 @@ def t_cli(t):
         return {"rc": rc, "stdout_tail": out[-3000:], "stderr_tail": err[-1500:], "files": files, "wall": time.time() - t0}
     finally:
         shutil.rmtree(d, ignore_errors=True)
+        try:
+            gp = open(d + ".gasolpath").read().strip()
+            os.remove(d + ".gasolpath")
+            if os.path.basename(gp.rstrip("/")).startswith("gasol_"):
+                shutil.rmtree(gp, ignore_errors=True)
+        except OSError:
+            pass
 
 
 import sys
